@@ -389,6 +389,13 @@ class Interp:
 
     def compare(self, op, a, b):
         """-> z3 Bool"""
+        if self.theory_on() and not self.pure and not isinstance(op, (ast.Is, ast.IsNot)) \
+                and not isinstance(a, PyConst) and not isinstance(b, PyConst) \
+                and not (V.is_val(b) and V.tagname(b) in ('notimpl', 'none')):
+            if isinstance(op, (ast.In, ast.NotIn)):
+                r = self.truth(self.theory('contains', [b, a]))
+                return r if isinstance(op, ast.In) else z3.Not(r)
+            return self.truth(self.theory('cmp_' + type(op).__name__, [a, b]))
         if isinstance(op, (ast.Is, ast.IsNot)):
             r = self.identical(a, b)
             return r if isinstance(op, ast.Is) else z3.Not(r)
@@ -489,6 +496,8 @@ class Interp:
         return self.binop(type(node.op).__name__, a, b)
 
     def binop(self, op, a, b):
+        if self.theory_on() and not self.pure and not isinstance(a, SeqV) and not isinstance(b, SeqV):
+            return self.theory('binop_' + op, [a, b])
         if isinstance(a, SeqV) or isinstance(b, SeqV):
             if op == 'Add':
                 sa = a.seq if isinstance(a, SeqV) else Val.tv(self.to_val(a))
@@ -711,6 +720,11 @@ class Interp:
         base = self.to_val(base)
         idx = self.to_val(idx)
         st = self.st
+        if self.theory_on() and not self.pure:
+            for pycls, c in sorted(self.reg.by_method.get('__getitem__', []), key=lambda pc: -len(pc[0].__mro__)):
+                if st.branch(z3.And(Val.is_o(base), V.subclass(st.cls_of(Val.ref(base)), z3.IntVal(V.cid_of(pycls))))):
+                    return self.call_contract(c, [base, idx], {})
+            return self.theory('getitem', [base, idx])
         if V.tagname(base) == 't' and V.tagname(idx) == 'i':
             k = z3.simplify(Val.iv(idx))
             tv = z3.simplify(Val.tv(base))
@@ -752,6 +766,11 @@ class Interp:
         self.raise_(TypeError, 'object is not subscriptable')
 
     def user_getitem(self, base, idx):
+        if self.theory_on() and not self.pure and not self.reg.by_method.get('__getitem__'):
+            return self.theory('getitem', [base, idx])
+        return self._user_getitem(base, idx)
+
+    def _user_getitem(self, base, idx):
         c = self.reg.method_contract(self, base, '__getitem__')
         if c is not None:
             return self.call_contract(c, [base, idx], {})
@@ -1019,7 +1038,39 @@ class Interp:
             return r.value
         return V.NONE
 
+    def theory_on(self):
+        c = self.fn.contract if self.fn is not None else None
+        return bool(c is not None and c.options.get('operator_theory'))
+
+    def theory(self, name, args):
+        """operator theory: an operation on values of unknown class is the uninterpreted function
+        th_<name> of its operands (total: whether the operation raises is not modelled here, the
+        bounded stand-in B-ops covers that); the same term is written `op(name, ...)` in contracts."""
+        vs = [self.to_val(a) for a in args]
+        self.st.assumptions.add('A-ops: operators/builtins on values of unknown class are uninterpreted total functions '
+                                '(failure behaviour is covered by the bounded stand-in B-ops)')
+        r = V.uf('th_' + name, *([Val] * (len(vs) + 1)))(*vs)
+        for pycls in getattr(self.reg, 'theory_never_returns', []):
+            # raw operations yield raw values, never one of pedal's proxies
+            self.st.assume(z3.Not(z3.And(Val.is_o(r), V.subclass(self.st.cls_of(Val.ref(r)), z3.IntVal(V.cid_of(pycls))))))
+        self.st.assume(r != V.ABSENT)
+        return r
+
+    THEORY_BUILTINS = {'str': str, 'repr': repr, 'int': int, 'float': float, 'complex': complex, 'bool': bool,
+                       'hash': hash, 'len': len, 'format': format, 'iter': iter, 'reversed': reversed, 'bytes': bytes,
+                       'dir': dir, 'round': round, 'abs': abs}
+
     def call_const(self, obj, args, kwargs, node):
+        if self.theory_on() and not isinstance(obj, SpecFn) and self.reg.function_contract(obj) is None:
+            import math as _math
+            import operator as _operator
+            for nm, fn in self.THEORY_BUILTINS.items():
+                if obj is fn:
+                    return self.theory(nm, args)
+            if getattr(obj, '__module__', None) == 'math' and callable(obj):
+                return self.theory('math_' + obj.__name__, args)
+            if getattr(obj, '__module__', None) == '_operator' and callable(obj):
+                return self.theory('operator_' + obj.__name__, args)
         # 1. spec functions of the sidecar
         if isinstance(obj, SpecFn):
             return self.call_spec(obj, args, kwargs)
@@ -1073,6 +1124,11 @@ class Interp:
             raise Unsupported('method of closure')
         recv = self.to_val(recv)
         st = self.st
+        if self.theory_on() and name.startswith('__') and name.endswith('__') and not self.pure:
+            for pycls, c in sorted(self.reg.by_method.get(name, []), key=lambda pc: -len(pc[0].__mro__)):
+                if st.branch(z3.And(Val.is_o(recv), V.subclass(st.cls_of(Val.ref(recv)), z3.IntVal(V.cid_of(pycls))))):
+                    return self.call_contract(c, [recv] + list(args), kwargs)
+            return self.theory('dunder' + name, [recv] + list(args))
         if self.pure:
             return self.pure_method(recv, name, args, kwargs)
         if st.branch(Val.is_o(recv)):
@@ -1740,6 +1796,12 @@ class Interp:
             g[name] = z3.Const('G0v_' + name, Val)
             self.st.heap.ghost.setdefault(name, g[name])
         return g[name]
+
+    def spec_op(self, node):
+        """op(name, operands...): the operator theory's term for that operation"""
+        name = node.args[0].value
+        vs = [self.to_val(self.ev(a)) for a in node.args[1:]]
+        return V.uf('th_' + name, *([Val] * (len(vs) + 1)))(*vs)
 
     def spec_lower(self, node):
         v = self.to_val(self.ev(node.args[0]))
